@@ -451,6 +451,25 @@ func (h *vhandler) Filecmd(r *Request) error {
 		}
 		delete(h.files, r.Filepath)
 		h.files[r.Target] = f
+	case "Setstat":
+		// the size attribute is applied (so that what the handler was given shows in later replies)
+		f := h.files[r.Filepath]
+		if f == nil {
+			return os.ErrNotExist
+		}
+		if r.AttrFlags().Size {
+			a := r.Attributes()
+			if a == nil {
+				return errors.New("attributes do not decode")
+			}
+			if a.Size > 1<<20 {
+				return errors.New("size out of range")
+			}
+			for uint64(len(f.data)) < a.Size {
+				f.data = append(f.data, 0)
+			}
+			f.data = f.data[:a.Size]
+		}
 	}
 	return nil
 }
